@@ -3,6 +3,7 @@
 //! driver (cases.txt) and one line of observed behaviour (impl.txt).
 mod util;
 mod m_canon;
+mod m_depfile;
 
 use util::Ctx;
 
@@ -22,6 +23,7 @@ fn main() {
     let mut ctx = Ctx::new(&outdir, seed, &tier, skip);
     match mode {
         "canon" => m_canon::run(&mut ctx),
+        "depfile" => m_depfile::run(&mut ctx),
         _ => {
             eprintln!("unknown mode {mode}");
             std::process::exit(2);
